@@ -43,10 +43,11 @@ let rec split_bar acc = function
 
 let handle (toks : string list) : (string * string * string) option =
   match toks with
-  | ("calls32" | "callsw" | "callsn" | "callsne") as op :: rest ->
+  | ("calls32" | "callsw" | "callsn" | "callsne" | "callsd") as op :: rest ->
     let (a, k, nslots, lib_of) = (match op with
         | "calls32" -> (abi_lp32, ILong, 4, fun s -> s mod 2)
         | "callsw" -> (abi_wide, IInt, 4, fun s -> s mod 2)
+        | "callsd" -> (abi_host, ILong, 64, fun s -> s mod 2)
         | _ -> (abi_host, ILong, 64, fun _ -> 0)) in
     let cin v = (match to_sbx a k v with Some r -> r | None -> failwith "no abi map") in
     let cout v = (match to_app a k v with Some r -> r | None -> failwith "no abi map") in
